@@ -198,6 +198,19 @@ TARGETED_SEQ_PROGS = ['del (a), (b), (c)\n', 'x = (a), (b), (c)\n', 'import a, b
                       'def f(*args, a=1, b=2): pass\n', 'def f(a, *, b=1, c=2): pass\n', 'def f(a, /, b=(1), *c, d, e=(2), **g): pass\n', 'lambda a, b=(1), *c, d=(2), **e: 0\n',
                       'x = [i for i in (j) if (k) if (l) for m in (n) if (o)]\n', 'def f[T, *U, **V](): pass\n', 'x = {**(a), (b): (c), **(d)}\n', 'match v:\n  case C((a), (b), k=(c), j=(d)): pass\n  case {1: (a), 2: (b), **r}: pass\n',
                       'if a:\n    del (a), (b)\nelse:\n    del c, (d)\n', 'for i in (j), (k), (l): pass\n', 'return_ = (a), (b)\n']
+# non-ASCII text inside what is removed and before what stays on the same line (byte columns and character columns differ), trailing separators kept
+TARGETED_SEQ_PROGS += ['é = b = 1\n', 't = ("é", ü,)\n', 'match x:\n case ("é", ü,): pass\n', 'del é, b\n', 'ü = [é, "ö", b,]\n', 'f(é, "ü", k=1,)\n', 'class C(É, b,): pass\n', 'def f(é, ü=1,): pass\n',
+                       'with é as ü, b as c: pass\n', 'import é, b\n', 'from m import é, b\n', 'def g():\n    global é, b\n', 'x = {é: "ü", b: c,}\n', 'v = é < "ü" < b\n', 'v = é and "ü" and b\n',
+                       'match x:\n case {"é": ü, "b": c,}: pass\n', 'match x:\n case C("é", ü=b,): pass\n', 'match x:\n case "é" | "ü" | b: pass\n', 'type T[É, Ü,] = int\n',
+                       'x = [i for i in é if "ü" if b]\n', 'x = a["é", ü,]\n', '"é"; é = b = c = 1\n', 'x = {"é", ü,}\n', 'x = {"é", ü,}; y = [é, b,]\n']
+# an or-pattern / operand chain inside a parent that goes on for another line: the parent's end column on the later line takes every value around the column where the inner
+# node ends after the removal (positions are fixed up by comparing with the old end)
+TARGETED_SEQ_PROGS += [f'match x:\n    case [a | b | c,\n{" " * 10}{"d" * w}]:\n        pass\n' for w in range(1, 12)]
+TARGETED_SEQ_PROGS += [f'match x:\n    case C(a | b | c,\n{" " * 6}{"d" * w}):\n        pass\n' for w in range(4, 16)]
+TARGETED_SEQ_PROGS += [f'match x:\n    case {{1: a | b | c,\n{" " * 6}2: {"d" * w}}}:\n        pass\n' for w in range(1, 12)]
+TARGETED_SEQ_PROGS += [f'match x:\n    case (a | b | c) as \\\n{" " * w}d:\n        pass\n' for w in range(8, 20)]
+TARGETED_SEQ_PROGS += [f'v = [a and b and c,\n{" " * 4}{"d" * w}]\n' for w in range(1, 14)]
+TARGETED_SEQ_PROGS += [f'v = f(a < b < c,\n{" " * 4}{"d" * w})\n' for w in range(1, 14)]
 
 
 def targeted_seq_cases():
